@@ -101,7 +101,8 @@ PROPS.update({
         explanation="Theorem C11 (sequential, proofs/C0911Once*.v): a memoized function never runs again and keeps its memo; otherwise it runs at most once per call and is memoized afterwards. Theorems C11_conc/C11_conc_progress (proofs/C1112Conc*.v): in the interleaving model of the lock-protected protocol the body runs at most once under EVERY schedule, finished threads saw that result, and the protocol does not deadlock; C11_unlocked_refuted: without the lock two executions are possible. Partial by nature: atomic sequentially-consistent steps abstract the Go memory model. Correspondence: histories with shared run-once converters; forced concurrent first use under the race detector (body held open until all goroutines arrived).",
         assumptions=["concurrent half: interleaving model with atomic steps, not the Go memory model"]),
     "C16": dict(layer=RES,
-        streams=[S("exact", "run_prop CFull P03", 500, 16000), S("malformed", "run_prop CFull P06", 200, 6000), S("call", "run_prop CFull P03", 200, 6000)],
+        streams=[S("exact", "run_prop CFull P03", 500, 16000), S("malformed", "run_prop CFull P06", 200, 6000), S("call", "run_prop CFull P03", 200, 6000),
+                 S("once", "run_prop CFids P06", 150, 4000)],
         witness=[],
         nontrivial_rule="scenario with at least two executions or an exactly matched multi-parameter target",
         explanation="Theorem C16 (proofs/C10C16Opts*.v): a nil option is an error result; for every slot (name / name+subtype / type / type+subtype, names lower-cased) the builder holds the LAST value written by defaults ++ call options, nil values write nothing; the converter list is the in-order concatenation; permuting options that write pairwise distinct slots changes no slot. Correspondence: provenance of injected values on the exact-match stream with case variants, duplicate keys, default/call splits, shuffled option order, nil values and nil options.",
@@ -116,7 +117,7 @@ PROPS.update({
         explanation="Theorem C14 (proofs/C141517VS*.v) over the model of NewFunc/newValueSet/newValueSetFromStruct incl. struct-tag parsing: rejected exactly for non-functions, marker structs mixed with other parameters/results and marker structs behind more than one pointer; otherwise one value per positional parameter/result or exported non-marker field, in order, name from the tag if it gives one else from the field, always lower-cased, emptied by typeOnly, subtype = text after the first '=' of the last subtype option; final error excluded; *struct equivalent to struct. Correspondence: random signatures built with reflect.FuncOf/StructOf (tags from a grammar incl. unknown and repeated options, '=' inside subtypes, extra keys in the raw tag) plus static structs with unexported fields and a marker that is not the first field; the Coq term of every signature is derived from the reflect.Type itself.",
         assumptions=["ASCII names", "tag values without quote or backslash characters"]),
     "C15": dict(layer="none",
-        streams=[S("vset", "check_vset_all", 500, 16000), S("built", "run_prop CFull P01", 300, 8000), S("built", "run_prop CFull P04", 200, 6000)],
+        streams=[S("vset", "check_vset_all", 500, 16000), S("built", "run_prop CFull P01", 300, 8000), S("built", "run_prop CFull P04", 200, 6000), S("built", "run_prop CPanic P06", 150, 4000)],
         witness=[W("TestD4", "D4"), W("TestD19", "D19")],
         nontrivial_rule="value list with at least two values / scenario with at least two executions",
         explanation="Theorem C15 (proofs/C141517VS*.v): a value set built from a list of values (subtypes without commas, names distinct up to case) reports them back in order with lower-cased names, finds every named value by name, a type-only value by type, and by type+subtype when unique. Correspondence: NewValueSet with random lists, all accessors, Signature/SignatureValues/FromSignature round trip into a fresh set; stream built: functions assembled with BuildFunc inside conversion chains must behave exactly like the model's ordinary struct-form functions (full trace, error pass-through).",
